@@ -159,6 +159,7 @@ class C03Full(C03):
             paths.append(p)
         outs = coq_eval_files(paths)
         agree = 0
+        disagreements = []
         for sh_, (rc, o), p in zip(shards, outs, paths):
             if rc != 0:
                 out.broken.append({'what': 'coqc failed on %s' % p, 'detail': o[-2000:]})
@@ -168,8 +169,37 @@ class C03Full(C03):
                 if v == enc_dfa_py(b):
                     agree += 1
                 else:
-                    out.broken.append({'what': 'correspondence: transcribed minimizer differs from Minimizer::minimize',
-                                       'detail': {'input': a, 'impl': enc_dfa_py(b), 'model': v}})
+                    disagreements.append((a, b, v))
+        # a disagreement between the transcription and the real minimizer: is the real output still
+        # equivalent to its input? (classes interpreted as pairwise disjoint symbols, one per class id)
+        for k, (a, b, v) in enumerate(disagreements[:5]):
+            ncls = 1 + max([e[0] for s_ in a['states'] for e in s_] + [e[0] for s_ in b['states'] for e in s_] + [0])
+            path = os.path.join(rdir, 'mindis_%d.v' % k)
+            with open(path, 'w') as f:
+                f.write('From Scnr Require Import Base Regex Automaton FindFrom Iter IterRun Spec EquivCheck.\nOpen Scope N_scope.\n'
+                        'Set Printing Depth 100000.\nSet Printing Width 100000.\n')
+                f.write('Definition tblc := tbl_of %s.\n' % cls_term({c: [c] for c in range(ncls)}))
+                f.write('Definition ms : list N := %s.\n' % clist([str(c) for c in range(ncls)]))
+                f.write('Definition A := %s.\nDefinition B := %s.\n' % (dfa_term(a), dfa_term(b)))
+                f.write('Eval vm_compute in ([if aut_equiv_check tblc A B ms (N.to_nat 100000) then 1 else 0],\n'
+                        '  match find_cex_aut tblc A B ms (N.to_nat 5000) with Some (w, p, q) => [w; p; q] | None => [] end).\n')
+            rc, o = coqc_file(path)
+            verdict = None
+            if rc == 0:
+                try:
+                    verdict = parse_coq_value(o)
+                except Exception:
+                    verdict = None
+            if verdict and verdict[0] == [0] and verdict[1]:
+                w, before, after = verdict[1]
+                out.violations.append({'property': 'C03', 'what': 'Minimizer::minimize changed the accepted token types of an automaton '
+                                       '(automaton handed to the minimizer through the hook; classes are pairwise disjoint symbols)',
+                                       'dfa': a, 'minimized_by_implementation': b, 'word_of_class_ids': w,
+                                       'token_types_before': before, 'token_types_after': after})
+            else:
+                out.broken.append({'what': 'correspondence: transcribed minimizer differs from Minimizer::minimize (the real output is '
+                                           'still equivalent to its input on this automaton)',
+                                   'detail': {'input': a, 'impl': enc_dfa_py(b), 'model': v}})
         stats['minimizer_model_comparisons'] = len(pairs)
         stats['minimizer_model_agree'] = agree
         stats['random_automata'] = nrand
@@ -535,8 +565,8 @@ def certify_subset(prop, rdir, out, stats, limit):
 class C01(ScanProperty):
     ID = 'C01'
     THEOREMS = [('Properties.C01', ['C01_longest_match_first_pattern', 'C01_priority_is_pattern_index', 'C01_stream_is_iterated_rule',
-                                    'C01_skip_one_character', 'C01_lang_equiv_from_certificate', 'C01_simple_builder_types',
-                                    'C01_nonvacuous'])]
+                                    'C01_skip_one_character', 'C01_lang_equiv_from_certificate', 'C01_find_equals_specification',
+                                    'C01_specification_is_maximal_candidate', 'C01_simple_builder_types', 'C01_nonvacuous'])]
     COQ_TARGETS = ['Properties/C01.vo']
     CERTS = {'quick': 40, 'thorough': 600}
 
@@ -658,8 +688,8 @@ def pos_allowed(data, o):
 
 class C09(ScanProperty):
     ID = 'C09'
-    THEOREMS = []
-    COQ_TARGETS = []
+    THEOREMS = [('Properties.C09', ['C09_spec_unfold', 'C09_spec_line_start', 'C09_spec_line', 'C09_spec_line_of_boundary', 'C09_spec_column', 'C09_spec_after_break', 'C09_invariant_init', 'C09_invariant_step', 'C09_invariant_history', 'C09_history_total', 'C09_bookkeeping_step', 'C09_position_of_scanned_offset', 'C09_position_of_recorded_offset', 'C09_position_at_unrecorded_frontier', 'C09_position_cases', 'C09_match_positions', 'C09_next_pos_output', 'C09_exhausted_positions', 'C09_ex_starts', 'C09_ex_spec', 'C09_ex_run', 'C09_ex_history_scanned', 'C09_ex_frontier', 'C09_ex_applies', 'C09_ex_forward_reset'])]
+    COQ_TARGETS = ['Properties/C09.vo']
     ASSUMPTIONS = ['set_offset only to already scanned offsets (the property\'s quantifier); histories that reset beyond the frontier '
                    'are still compared with the model but not judged by the position oracle']
     RULE = ('inputs with empty lines, trailing newline, \\r\\n, multi-byte and unmatched characters; WithPositions histories of '
@@ -755,3 +785,83 @@ class C09(ScanProperty):
 
 
 ALL.update({c.ID: c for c in [C01, C04, C09]})
+
+
+class ClassIds:
+    """Leaf ids = class ids of the registry: index of the leaf text in dump.classes."""
+    def __init__(self, classes):
+        self.ids = {s: i for i, s in enumerate(classes)}
+
+    def get(self, s):
+        return self.ids[s]
+
+
+class C02Full(C02):
+    """Adds the correspondence of the end-to-end compile model (Thompson construction, multi-pattern
+    closure construction, minimizer) with the automata the implementation compiled."""
+    THEOREMS = C02.THEOREMS + [('Properties.C02b', ['C02_mp_build_wf', 'C02_shift_preserves_language', 'C02_compile_mp_total',
+                                                    'C02_compile_mp_no_panic', 'C02_compile_mp_correct', 'C02_compile_mp_build_correct',
+                                                    'C02_compile_mp_facts', 'C02_empty_word_never_accepted_by_construction',
+                                                    'C02_compile_single_total', 'C02_compile_single_no_panic', 'C02_compile_single_correct',
+                                                    'C02_compile_single_facts', 'C02_compile_mode_unmin_correct', 'C02_compile_mode_correct',
+                                                    'C02_compile_mode_size', 'C02_compile_mode_empty_word', 'C02_compile_mode_no_panic',
+                                                    'C02_compile_mode_supported', 'C02_compile_la_correct', 'C02_compile_la_no_panic',
+                                                    'C02_example_mode']),
+                               ('Properties.C15', ['C02_thompson_correct', 'C02_nfa_matchb_spec', 'C02_built_matchb_spec'])]
+    COQ_TARGETS = ['Properties/C02.vo', 'Properties/C02b.vo', 'Properties/C15.vo']
+
+    def explore(self, rng, tier, rdir, out, replay=None, programs=None):
+        stats = C02.explore(self, rng, tier, rdir, out, replay, programs)
+        if programs is not None:
+            return stats
+        jobs = json.load(open(os.path.join(rdir, 'sweep.json')))['jobs']
+        results = [json.loads(l) for l in open(os.path.join(rdir, 'sweep.results.jsonl'))]
+        entries = []
+        maxstates = 60 if tier == 'quick' else 700
+        for j, r in zip(jobs, results):
+            if r.get('build') != 'ok':
+                continue
+            ids = ClassIds(r['dump']['classes'])
+            for k, (m, md, asts) in enumerate(zip(j['modes'], r['dump']['modes'], r['asts'])):
+                if len(md['dfa']['states']) > maxstates:
+                    continue
+                if len(set(p['t'] for p in m['patterns'])) != len(m['patterns']) or any(p['t'] >= 2 ** 32 for p in m['patterns']):
+                    continue
+                try:
+                    pats = clist(['(%d, %s)' % (p['t'], ast_term(a[0], ids)) for p, a in zip(m['patterns'], asts)])
+                except KeyError:
+                    continue
+                entries.append(('(compile_mode_enc %s)' % pats, enc_dfa_py(md['dfa']), j['modes'], 'mode %d' % k))
+                la_asts = {p['t']: a[1] for p, a in zip(m['patterns'], asts) if p.get('la')}
+                for tid, pos, ldfa in md['dfa'].get('las', []):
+                    if tid in la_asts:
+                        entries.append(('(compile_la_enc %s)' % ast_term(la_asts[tid], ids), enc_dfa_py(ldfa), j['modes'], 'lookahead of %d' % tid))
+        shards = [entries[k:k + 50] for k in range(0, len(entries), 50)]
+        paths = []
+        for n, sh_ in enumerate(shards):
+            p = os.path.join(rdir, 'compile_%03d.v' % n)
+            with open(p, 'w') as f:
+                f.write('From Scnr Require Import Base Regex Automaton Spec Nfa Minimizer Compile.\nOpen Scope N_scope.\n'
+                        'Set Printing Depth 1000000.\nSet Printing Width 1000000.\n')
+                f.write('Eval vm_compute in %s.\n' % clist(['\n ' + e[0] for e in sh_]))
+            paths.append(p)
+        outs = coq_eval_files(paths, timeout=1500)
+        agree = 0
+        for sh_, (rc, o), p in zip(shards, outs, paths):
+            if rc != 0:
+                out.broken.append({'what': 'coqc failed on %s' % p, 'detail': o[-2000:]})
+                continue
+            vals = parse_coq_value(o)
+            for (term, impl, modes, what), v in zip(sh_, vals):
+                if v == impl:
+                    agree += 1
+                else:
+                    out.broken.append({'what': 'correspondence: the compile model (Thompson + closure construction + minimizer) differs from '
+                                               'the automaton the implementation compiled (%s)' % what,
+                                       'detail': {'modes': modes, 'impl': impl, 'model': v}})
+        stats['compile_model_comparisons'] = len(entries)
+        stats['compile_model_agree'] = agree
+        return stats
+
+
+ALL['C02'] = C02Full
